@@ -10,7 +10,7 @@ CLAIMED = {
   "Theorems in lean/GoluaVerif/Props/C02.lean are re-checked on every run against definitions regenerated from "
   "runtime/arith.go, comp.go, numconv.go by extract/golean; the full pipeline (Lua source -> VM) is then compared with "
   "the executable spec the theorems are about on an exhaustive boundary lattice x 24 operators plus random operands. "
-  "Props/C02_Order.lean: lt_irrefl, lt_trans, le_trans, le_antisymm, lt_of_lt_of_le (the exact comparison is a strict total order on non-NaN numbers of any mix) and, over the regenerated comp.go functions, lt_trans_int_float_int, le_antisymm_int_float.",
+  "Props/C02.lean also: floordiv_minus_one (x // -1 = -x wrapped, minint included), mod_minus_one, floordiv_one, mod_idempotent over the regenerated floordivInt/modInt. Props/C02_Order.lean: lt_irrefl, lt_trans, le_trans, le_antisymm, lt_of_lt_of_le (the exact comparison is a strict total order on non-NaN numbers of any mix) and, over the regenerated comp.go functions, lt_trans_int_float_int, le_antisymm_int_float.",
   "Trusted: Lean kernel; the translator; hardware float + - * / (taken from Lean Float in the oracle); pow/libm unchecked. "
   "See DESIGN.md section 5 and 6 (C02).", "6/C02"),
  "C14": ("proof",
